@@ -242,6 +242,65 @@ def check(ctx):
                        construct="%s/prefired/%s" % (f.func, rg),
                        msg="callback()/errback() of a request taken from %s without testing .called; %s registers requests whose Deferred "
                            "is already fired (%s): AlreadyCalledError escapes" % (rg, tr0.label(), where(st0)))
+        # optional application callbacks (fields the constructor sets to None): calling one, or handing it to callLater, without
+        # testing it raises TypeError out of dataReceived / connectionLost / the reactor when the application has not set it
+        init_none = {f for (o, f), v in eng.full_init_heap.items() if o == SELF and v == NONE}
+
+        def _guarded_field(e, name):
+            for c in e.conds:
+                t, pol = c.term, c.pol
+                while isinstance(t, tuple) and t and t[0] == "not":
+                    t, pol = t[1], not pol
+                if pol and (t == ("attr", SELF, name) or (isinstance(t, tuple) and t[:1] in (("nonnull",), ("truthy",)) and t[1] == ("attr", SELF, name))
+                            or (isinstance(t, tuple) and t[:2] == ("call", ("builtin", "callable")) and t[2] == (("attr", SELF, name),))):
+                    return True
+            return False
+        seen_cb = set()
+        for tr in contexts(cat):
+            if tr.kind not in ("NET", "TIMER", "LOSS"):
+                continue
+            for e in tr.events:
+                nm = None
+                if e.kind == "CALLBACK" and e.a["name"] in init_none:
+                    nm = e.a["name"]
+                elif e.kind == "ARM" and isinstance(e.a.get("target"), tuple) and e.a["target"][:2] == ("attr", SELF) and e.a["target"][2] in init_none:
+                    nm = e.a["target"][2]
+                if nm is None or (e.func, nm) in seen_cb:
+                    continue
+                if not _guarded_field(e, nm):
+                    seen_cb.add((e.func, nm))
+                    ctx.ob("E3", "%s optional callback %s is used only when set (%s)" % (cq, nm, tr.label()), False, where=where(e), function=e.func,
+                           construct="%s/unset-callback/%s" % (e.func, nm),
+                           msg="self.%s is None until the application sets it; it is %s here without a test: TypeError escapes when no handler is "
+                               "registered" % (nm, "called" if e.kind == "CALLBACK" else "scheduled with callLater"))
+        # the CONNACK deadline: its callback fails the connect Deferred; a CONNACK path (a reserved return code as much as 0) that
+        # fires that Deferred and leaves the deadline armed lets the callback fire it a second time - AlreadyCalledError out of a timer
+        from .c04 import conn_owner
+        from ..fieldroles import is_alarm_field
+        timer_fires_conn = any(tr.kind == "TIMER" and any(
+            e.kind == "FIRE" and isinstance(e.a["dfr"], tuple) and e.a["dfr"][0] == "attr" and conn_owner(e.a["dfr"][1], hd, tr)
+            and not any("called" in repr(c.term) for c in e.conds) for e in tr.events) for tr in contexts(cat))
+        if timer_fires_conn:
+            seen_c = set()
+            for tr in contexts(cat):
+                if not (tr.kind == "NET" and tr.name == "CONNACK" and tr.slot == "CONNECTING" and tr.decode_ok) or tr.path.exit_kind() == "raise":
+                    continue
+                fires = [e for e in tr.events if e.kind == "FIRE" and isinstance(e.a["dfr"], tuple) and e.a["dfr"][0] == "attr"
+                         and conn_owner(e.a["dfr"][1], hd, tr)]
+                if not fires:
+                    continue
+                cn = [e for e in tr.events if e.kind == "CANCEL" and isinstance(e.a["handle"], tuple) and e.a["handle"][0] == "attr"
+                      and is_alarm_field(e.a["handle"][2]) and conn_owner(e.a["handle"][1], hd, tr)]
+                key = fires[0].func
+                if not cn and key not in seen_c:
+                    seen_c.add(key)
+                    ctx.ob("E3", "%s a CONNACK that settles the connect request disarms its deadline (%s)" % (cq, tr.label()), False, where=where(fires[0]),
+                           function=fires[0].func, construct="%s/connect-deadline-left-armed" % fires[0].func,
+                           msg="a path of the CONNACK handler fires the connect Deferred without cancelling the CONNACK deadline: when it "
+                               "expires its callback fires the same Deferred again and AlreadyCalledError escapes from the timer")
+            if not seen_c:
+                ctx.ob("E3", "%s every CONNACK path that settles the connect request disarms its deadline" % cq, True, where=cls.module.path,
+                       construct="%s/connect-deadline" % cls.qual, nontrivial=False)
         names = {tr.name for tr in contexts(cat) if tr.kind == "NET" and tr.slot is not None}
         exp = {n for k, (n, d) in SPEC_TYPES.items() if d in ("s2c", "both")}
         ctx.ob("E2", "%s every client-bound packet type has a handler" % cq, exp <= names, where=cls.module.path,
